@@ -134,6 +134,16 @@ def _case(draw, pid, tier):
         if kind == "fault":
             op["fault"] = draw(st.sampled_from(["exit", "absent", "drop", "dup"]))
             op["at"] = draw(st.integers(0, 12))
+        elif draw(st.integers(0, 3)) == 0:
+            # the same process draws the same history with other parameters in between
+            # (anything the library remembers from one call to the next shows here)
+            over = {}
+            if draw(st.booleans()):
+                over["event_label_width"] = draw(st.sampled_from([None, 1, 3, 5, 8, 18, 30]))
+            else:
+                key = draw(st.sampled_from(sorted(PARAM_CHOICES)))
+                over[key] = draw(st.sampled_from(PARAM_CHOICES[key]))
+            op["params"] = over
         ops.append(op)
     case["ops"] = ops
     return case
@@ -313,9 +323,10 @@ class World:
 # --------------------------------------------------------------------------------------
 # observation helpers
 # --------------------------------------------------------------------------------------
-def make_params(case, orient):
+def make_params(case, orient, op=None):
     rmodel = _m["rmodel"]
     kw = dict(case["params"])
+    kw.update((op or {}).get("params") or {})
     kw["orientation"] = (rmodel.Orientation.VERTICAL if orient == "V"
                          else rmodel.Orientation.HORIZONTAL)
     return rmodel.DrawParams(**kw)
@@ -579,8 +590,7 @@ def execute(case, focus=None):
     world = World(case)
     exp_nodes, exp_losses = world.census()
     rec = world.parse()
-    layouts = {}  # orientation -> first dumped layout
-    width = case["params"].get("event_label_width", 18)
+    layouts = {}  # (orientation, parameter overrides) -> first dumped layout
     if world.colors:
         run.probe("coloured")
         if any(any(a in world.colors for a in _ancestors(v)) for v in world.colors):
@@ -594,7 +604,14 @@ def execute(case, focus=None):
     n_computes = 0
     for idx, op in enumerate(case["ops"]):
         orient = op["orient"]
-        params = make_params(case, orient)
+        params = make_params(case, orient, op)
+        over = op.get("params") or {}
+        okey = repr(sorted(over.items(), key=repr))
+        width = {**case["params"], **over}.get("event_label_width", 18)
+        diameter = {**case["params"], **over}.get("extant_gene_diameter", 3)
+        if over:
+            run.probe("params_changed_within_history")
+            run.nontrivial = True
         target = world.parse() if op["fresh"] else rec
         if op["fresh"]:
             run.probe("fresh_parse")
@@ -632,20 +649,21 @@ def execute(case, focus=None):
         _check_census(run, world, lay, exp_nodes, exp_losses, where)
         dumped = dump_layout(lay)
         _check_geometry(run, world, lay, dumped, where)
-        if orient in layouts:
+        if (orient, okey) in layouts:
             run.probe("computed_twice")
             run.nontrivial = True
-            run.check(close(dumped, layouts[orient]), ("C14",), "C14.twice-differs",
+            run.check(close(dumped, layouts[orient, okey]), ("C14",), "C14.twice-differs",
                       lambda: f"{where}: layout differs from the one computed earlier in this "
-                              f"history for the same reconciliation ({_first_diff(dumped, layouts[orient])})")
+                              f"history for the same reconciliation and parameters "
+                              f"({_first_diff(dumped, layouts[orient, okey])})")
         else:
-            layouts[orient] = dumped
-        other = "H" if orient == "V" else "V"
+            layouts[orient, okey] = dumped
+        other = ("H" if orient == "V" else "V", okey)
         if other in layouts:
             run.probe("mirror_compared")
             run.nontrivial = True
             run.check(close(mirror(dumped), layouts[other]), ("C14",), "C14.not-mirror",
-                      lambda: f"{where}: {orient} layout is not the mirror image of the {other} "
+                      lambda: f"{where}: {orient} layout is not the mirror image of the {other[0]} "
                               f"layout computed with transposed node sizes "
                               f"({_first_diff(mirror(dumped), layouts[other])})")
         _check_layout_labels(run, world, lay, width, where)
@@ -657,7 +675,7 @@ def execute(case, focus=None):
                           f"{where}: tikz.render raised {type(exc).__name__}: {exc!s:.300} "
                           f"(missing anchor?)")
                 continue
-            _check_tikz(run, world, lay, code, width, where, orient)
+            _check_tikz(run, world, lay, code, width, where, orient, diameter)
             run.event(idx, "render", orient, hashlib.sha256(code.encode()).hexdigest())
         else:
             run.event(idx, "compute", orient, hashlib.sha256(repr(dumped).encode()).hexdigest())
@@ -789,9 +807,8 @@ def _check_label(run, world, v, label, width, where):
         run.probe("wrapped_label")
 
 
-def _check_tikz(run, world, lay, code, width, where, orient):
+def _check_tikz(run, world, lay, code, width, where, orient, diameter):
     PseudoGene = _m["rmodel"].PseudoGene
-    diameter = world.case["params"].get("extant_gene_diameter", 3)
     doc = parse_tikz(code)
     run.check(not doc["problems"], ("C15",), "C15.malformed-tikz",
               lambda: f"{where}: {doc['problems'][:3]}")
@@ -940,7 +957,8 @@ def describe(pid):
                 "1-12 families + optional (nested) colours + perturbed DrawParams and label "
                 "width + a simulated TeX peer (engine tectonic/xelatex/both, per-index or "
                 "per-text sizes 1-100/10/3, chatter lines) + history of 1-4 (5) operations "
-                "(compute V/H, render V/H, on the same object or a fresh parse, peer faults: "
+                "(compute V/H, render V/H, on the same object or a fresh parse, a quarter of them "
+                "with a changed label width or drawing parameter, peer faults: "
                 "non-zero exit, engine absent, dropped / duplicated measurement line). "
                 "Non-trivial: several computes, a fault fired, chatter, perturbed parameters, "
                 "colours or labels present; distinct = distinct case digest.",
@@ -960,7 +978,8 @@ def describe(pid):
             "C13": ["transfer", "losses", "labelled", "peer_exit", "peer_drop", "peer_dup",
                     "peer_absent", "engine_xelatex", "engine_tectonic"],
             "C14": ["mirror_compared", "computed_twice", "fresh_parse", "transfer", "losses",
-                    "peer_chatter"],
-            "C15": ["coloured", "nested_colour", "labelled", "wrapped_label", "fresh_parse"],
+                    "peer_chatter", "params_changed_within_history"],
+            "C15": ["coloured", "nested_colour", "labelled", "wrapped_label", "fresh_parse",
+                    "params_changed_within_history"],
         }[pid],
     }
